@@ -206,15 +206,17 @@ func rule134(r *core.Run, fn *ssa.Function) {
 			v, _ := core.ConstString(set.Call.Args[0])
 			okRange := true
 			okGuard := false
+			extra := ""
 			var loopIf *ssa.If
 			for _, g := range core.GuardsOf(set) {
 				cd := core.CondOf(g.If.Cond)
-				if cd.Op == token.LSS && isLenCall(cd.Y) {
+				// the loop the call is in: entered through the true edge of its index test; the innermost one
+				if cd.Op == token.LSS && isLenCall(cd.Y) && g.Branch && (loopIf == nil || core.BlockDominates(loopIf.Block(), g.If.Block())) {
 					loopIf = g.If
 				}
 			}
 			for _, g := range core.GuardsOf(set) {
-				if loopIf != nil && g.If != loopIf && g.If.Block().Dominates(loopIf.Block()) {
+				if loopIf != nil && g.If != loopIf && core.BlockDominates(g.If.Block(), loopIf.Block()) {
 					continue // a guard of the whole loop, not of one entry
 				}
 				gs := r.P.SliceOf(g.If.Cond, core.SliceOpts{Depth: -1})
@@ -231,10 +233,11 @@ func rule134(r *core.Run, fn *ssa.Function) {
 					continue
 				}
 				okRange = false
+				extra = "an additional condition at " + pos(r, g.If)
 			}
 			rs := r.P.SliceOf(set.Call.Value, core.SliceOpts{Depth: -1})
 			r.Check(v == "null" && okRange && okGuard && loopIf != nil && rs.Has("field:gofakes3.ListBucketVersionsResult.Versions"), "R13.4", key(fname(r, h), "null substitution"), pos(r, set),
-				"every entry with an empty id gets 'null'", "the 'null' substitution does not cover every entry of bucket.Versions with an empty id")
+				"every entry with an empty id gets 'null'", "the 'null' substitution does not cover every entry of bucket.Versions with an empty id "+extra)
 		}
 	}
 	n := 0
